@@ -8,4 +8,7 @@ MODE=""
 case "$1" in C19) MODE=race;; esac
 BIN=$(./build.sh $MODE) || { echo "check.sh: build failed (machinery error, not a violation)" >&2; exit 2; }
 export VERIF_TIER="${2}"
+if [ "$MODE" = race ] && [ "$2" = "--replay" ]; then
+  RL="$VERIF_ROOT/.build/race-replay.$$"; export GORACE="halt_on_error=0 exitcode=0 log_path=$RL" VERIF_RACELOG="$RL"
+fi
 exec "$BIN" "$@"
